@@ -24,7 +24,6 @@ structure PlainP (P : Program) (d : DagRef) : Prop where
   noRecur  : ∀ n kw i k v, P.body n kw i k = .ret v → v.isRecur = false ∧ v.isExc = false
   noRecurD : ∀ n kw, (P.dflt n kw).isRecur = false ∧ (P.dflt n kw).isExc = false
   noCb     : ∀ k n, P.cbYield k n = 0
-  noCbR    : ∀ k n, P.cbRaise k n = none
   pools    : P.poolsOk = true
   main     : ∀ s : St, (∀ n, s.opened n = false) → reducedRef P s P.g.input P.g.output false false false = some d
   dest     : d.dest = some P.g.output
@@ -85,6 +84,13 @@ structure Solution (P : Program) (d : DagRef) (val : Node → Option Val) : Prop
 def NodeFails (P : Program) (val : Node → Option Val) (n : Node) (e : Exc) : Prop :=
   (P.g.preds n).all (fun p => (val p).isSome) = true ∧ finalOf P n (kwFrom P val n) = some (.failed e)
 
+/-- a collaborator (event manager callback or artifact store) raises `e` -/
+def CollabFails (P : Program) (e : Exc) : Prop := ∃ cb m, P.cbRaise cb m = some e
+
+/-- why a run may fail with `e`: a node of the pipeline fails with it, or a collaborator raises it -/
+def FailCause (P : Program) (d : DagRef) (val : Node → Option Val) (e : Exc) : Prop :=
+  (∃ n ∈ d.nodes, NodeFails P val n e) ∨ CollabFails P e
+
 /-- attempt `k` of the (only) invocation of node `n` is the next one / is in progress -/
 structure Att (P : Program) (val : Node → Option Val) (n : Node) (k : Nat) (kw : Kwargs) (inv : Nat) : Prop where
   kw_eq : kw = kwFrom P val n
@@ -123,7 +129,10 @@ inductive NodeTaskOK (P : Program) (d : DagRef) (val : Node → Option Val) (s :
       s.proc n = true → (s.res n).isSome = true → Track P d val (val n = s.res n) →
       NodeTaskOK P d val s n { frames := [], st := .done .ok, name := .node n }
   | doneExc (e : Exc) :
-      s.proc n = true → s.res n = none → Track P d val (NodeFails P val n e) →
+      s.proc n = true → s.res n = none → Track P d val (NodeFails P val n e ∨ CollabFails P e) →
+      NodeTaskOK P d val s n { frames := [], st := .done (.exc e), name := .node n }
+  | doneExcSaved (e : Exc) :      -- the artifact store raised after the value had been stored
+      s.proc n = true → (s.res n).isSome = true → Track P d val (val n = s.res n) → CollabFails P e →
       NodeTaskOK P d val s n { frames := [], st := .done (.exc e), name := .node n }
 
 /-- the main `_run_dag` task (task 1); `launched` are the nodes it has created tasks for, in order -/
@@ -270,6 +279,7 @@ theorem launched_no_result_contra {P : Program} {d : DagRef} {s : St} {n : Node}
   | slept k kw inv => simp [isRunnable] at h1
   | doneOk _ h => simp [hres] at h
   | doneExc e _ _ => exact herr i _ e hi rfl
+  | doneExcSaved e _ h => simp [hres] at h
 
 /-- **C02 (plain), no stuck state**: in every state satisfying the invariant in which the run is still pending,
 some task can run or something external (a node body, a timer) is outstanding -/
@@ -501,6 +511,7 @@ theorem NodeTaskOK.frame {P : Program} {d : DagRef} {s s' : St} {n : Node} {tk :
   | slept k kw inv h1 h2 h3 => exact .slept k kw inv (by rw [hp, h1]) (by rw [hr, h2]) h3
   | doneOk h0 h1 h3 => exact .doneOk (by rw [hp, h0]) (by rw [hr, h1]) (by rw [hr]; exact h3)
   | doneExc e h0 h1 h3 => exact .doneExc e (by rw [hp, h0]) (by rw [hr, h1]) h3
+  | doneExcSaved e h0 h1 h3 h4 => exact .doneExcSaved e (by rw [hp, h0]) (by rw [hr, h1]) (by rw [hr]; exact h3) h4
 
 /-- the same when the results do not change at all -/
 theorem NodeTaskOK.frame' {P : Program} {d : DagRef} {s s' : St} {n : Node} {tk : Task}
@@ -877,9 +888,9 @@ theorem wakeSet_name (ks : List Key) (evs : List Node) (tk : Task) :
 /-- terminal 3/4: the node task ends (with a value stored, or with an exception) after the `finally` notifications -/
 theorem node_step_finish {P : Program} {d : DagRef} (hp : PlainP P d) {s s1 : St} {L : List Node} {i : Nat} {c : Ctx}
     {tk : Task} (x : NodeStepCtx P d val s s1 L i c tk) (s2 : St) (r : TaskRes) (obs : List Obs) (s' : St)
-    (hs2 : (s2 = s1 ∧ ∃ e, r = .exc e ∧ Track P d val (NodeFails P val (L[i]'x.hi) e)) ∨
-      (∃ v, s2 = s1.setRes (L[i]'x.hi) v ∧ (v.isRecur = false ∧ v.isExc = false) ∧ r = .ok ∧
-        Track P d val (val (L[i]'x.hi) = some v)))
+    (hs2 : (s2 = s1 ∧ ∃ e, r = .exc e ∧ Track P d val (NodeFails P val (L[i]'x.hi) e ∨ CollabFails P e)) ∨
+      (∃ v, s2 = s1.setRes (L[i]'x.hi) v ∧ (v.isRecur = false ∧ v.isExc = false) ∧
+        Track P d val (val (L[i]'x.hi) = some v) ∧ (r = .ok ∨ ∃ e, r = .exc e ∧ CollabFails P e)))
     (hs' : s' = (endTask c (nodeFinally P s2 d (L[i]'x.hi) true) obs r).1) :
     PInv P d val s' := by
   have hi := x.hi
@@ -934,14 +945,19 @@ theorem node_step_finish {P : Program} {d : DagRef} (hp : PlainP P d) {s s1 : St
     · rw [h]; simp only [St.setRes, upd, hm, if_false]; rw [x.res1]
   · exact x.resN
   · have hrn : s'.res L[i] = s2.res L[i] := by rw [hres']
-    rcases hs2 with ⟨h, e, he, htr⟩ | ⟨v0, h, _, he, htr⟩
+    rcases hs2 with ⟨h, e, he, htr⟩ | ⟨v0, h, _, htr, he⟩
     · subst he
       refine .doneExc e (by rw [hproc', hproc2]; exact x.procN) ?_ htr
       rw [hrn, h, x.res1]; exact x.resN
-    · subst he
-      refine .doneOk (by rw [hproc', hproc2]; exact x.procN) ?_ ?_
-      · rw [hrn, h]; simp [St.setRes]
-      · intro hsol; rw [hrn, h, htr hsol]; simp [St.setRes]
+    · rcases he with he | ⟨e, he, hce⟩
+      · subst he
+        refine .doneOk (by rw [hproc', hproc2]; exact x.procN) ?_ ?_
+        · rw [hrn, h]; simp [St.setRes]
+        · intro hsol; rw [hrn, h, htr hsol]; simp [St.setRes]
+      · subst he
+        refine .doneExcSaved e (by rw [hproc', hproc2]; exact x.procN) ?_ ?_ hce
+        · rw [hrn, h]; simp [St.setRes]
+        · intro hsol; rw [hrn, h, htr hsol]; simp [St.setRes]
   · intro m hm _; exact succ_mem_finallyKeys hp _ m hm
   · intro ho _; rw [ho]; exact out_mem_finallyKeys hp
   · intro _; exact run_mem_finallyKeys P d _
@@ -952,20 +968,41 @@ namespace MLPE.Eng
 open MLPE
 variable {val : Node → Option Val}
 
+/-- a collaborator raised inside the node's coroutine before any value was stored -/
+theorem node_cbraise_plain {P : Program} {d : DagRef} (hp : PlainP P d) {s s1 : St} {L : List Node} {i : Nat} {c : Ctx}
+    {tk : Task} (x : NodeStepCtx P d val s s1 L i c tk) (obs : List Obs) (e : Exc) (hce : CollabFails P e) :
+    PInv P d val (nodeCbRaise c s1 obs d (L[i]'x.hi) [] e).1 := by
+  simp only [nodeCbRaise, raiseOut, unwindFrames]
+  exact node_step_finish hp x s1 (.exc e) _ _ (Or.inl ⟨rfl, e, rfl, fun _ => Or.inr hce⟩) (by rw [x.cP])
+
+theorem node_cbraiseInTry_plain {P : Program} {d : DagRef} (hp : PlainP P d) {s s1 : St} {L : List Node} {i : Nat}
+    {c : Ctx} {tk : Task} (x : NodeStepCtx P d val s s1 L i c tk) (obs : List Obs) (e : Exc) (hce : CollabFails P e) :
+    PInv P d val (nodeCbRaiseInTry c s1 obs d (L[i]'x.hi) [] e).1 := by
+  simp only [nodeCbRaiseInTry]
+  exact node_cbraise_plain hp x _ e hce
+
 /-- a node of a plain run produced the value `v`: `on_node_complete(None)`, store, save, `finally`, task ends -/
 theorem node_success_plain {P : Program} {d : DagRef} (hp : PlainP P d) {s s1 : St} {L : List Node} {i : Nat} {c : Ctx}
     {tk : Task} (x : NodeStepCtx P d val s s1 L i c tk) (obs : List Obs) (v : Val) (hv : v.isRecur = false ∧ v.isExc = false)
     (htr : Track P d val (val (L[i]'x.hi) = some v)) :
     PInv P d val (nodeSuccess c s1 obs d (L[i]'x.hi) [] v).1 := by
   have hcb : ∀ k n, c.P.cbYield k n = 0 := by rw [x.cP]; exact hp.noCb
-  have hcr : ∀ k n, c.P.cbRaise k n = none := by rw [x.cP]; exact hp.noCbR
-  simp only [nodeSuccess, hcb, cbThen, cbCall, hcr, nodePost, recSpawn, hv.1, Bool.false_eq_true, if_false, storeIf, if_true,
-    Bool.not_false, Bool.true_and, Bool.and_true]
-  split
-  · simp only [nodeFinish, retTo]
-    exact node_step_finish hp x (s1.setRes _ v) .ok _ _ (Or.inr ⟨v, rfl, hv, rfl, htr⟩) (by rw [x.cP])
-  · simp only [retTo]
-    exact node_step_finish hp x (s1.setRes _ v) .ok _ _ (Or.inr ⟨v, rfl, hv, rfl, htr⟩) (by rw [x.cP])
+  simp only [nodeSuccess, cbCall]
+  cases hr1 : c.P.cbRaise .ncomplete (L[i]'x.hi) with
+  | some e =>
+    simp only []
+    exact node_cbraiseInTry_plain hp x _ e ⟨_, _, by rw [← x.cP]; exact hr1⟩
+  | none =>
+    simp only [hcb, cbThen, nodePost, recSpawn, hv.1, hv.2, Bool.false_eq_true, if_false, storeIf, if_true,
+      Bool.not_false, Bool.true_and, Bool.and_true, cbCall]
+    cases hr2 : c.P.cbRaise .save (L[i]'x.hi) with
+    | some e =>
+      simp only [nodeCbRaise, raiseOut, unwindFrames]
+      exact node_step_finish hp x (s1.setRes _ v) (.exc e) _ _
+        (Or.inr ⟨v, rfl, hv, htr, Or.inr ⟨e, rfl, _, _, by rw [← x.cP]; exact hr2⟩⟩) (by rw [x.cP])
+    | none =>
+      simp only [hcb, cbThen, nodeFinish, retTo]
+      exact node_step_finish hp x (s1.setRes _ v) .ok _ _ (Or.inr ⟨v, rfl, hv, htr, Or.inl rfl⟩) (by rw [x.cP])
 
 /-- a node of a plain run failed for good with `e` -/
 theorem node_fail_plain {P : Program} {d : DagRef} (hp : PlainP P d) {s s1 : St} {L : List Node} {i : Nat} {c : Ctx}
@@ -973,16 +1010,20 @@ theorem node_fail_plain {P : Program} {d : DagRef} (hp : PlainP P d) {s s1 : St}
     (htr : Track P d val (NodeFails P val (L[i]'x.hi) e)) :
     PInv P d val (nodeFail c s1 obs d (L[i]'x.hi) [] e).1 := by
   have hcb : ∀ k n, c.P.cbYield k n = 0 := by rw [x.cP]; exact hp.noCb
-  have hcr : ∀ k n, c.P.cbRaise k n = none := by rw [x.cP]; exact hp.noCbR
-  simp only [nodeFail, hcb, cbThen, cbCall, hcr, nodeFailCont, hp.notOneof, Bool.false_eq_true, if_false, raiseOut, unwindFrames]
-  exact node_step_finish hp x s1 (.exc e) _ _ (Or.inl ⟨rfl, e, rfl, htr⟩) (by rw [x.cP])
+  simp only [nodeFail, cbCall]
+  cases hr1 : c.P.cbRaise .ncomplete (L[i]'x.hi) with
+  | some e' =>
+    simp only []
+    exact node_cbraise_plain hp x _ e' ⟨_, _, by rw [← x.cP]; exact hr1⟩
+  | none =>
+    simp only [hcb, cbThen, nodeFailCont, hp.notOneof, Bool.false_eq_true, if_false, raiseOut, unwindFrames]
+    exact node_step_finish hp x s1 (.exc e) _ _ (Or.inl ⟨rfl, e, rfl, fun hs => Or.inl (htr hs)⟩) (by rw [x.cP])
 
 theorem node_afterBody_plain {P : Program} {d : DagRef} (hp : PlainP P d) {s s1 : St} {L : List Node} {i : Nat} {c : Ctx}
     {tk : Task} (x : NodeStepCtx P d val s s1 L i c tk) (obs : List Obs) (k : Nat) (kw : Kwargs) (inv : Nat)
     (hatt : Track P d val (Att P val (L[i]'x.hi) k kw inv)) :
     PInv P d val (nodeAfterBody c s1 obs d (L[i]'x.hi) false [] k kw inv (P.body (L[i]'x.hi) kw inv k)).1 := by
   have hcb : ∀ k n, c.P.cbYield k n = 0 := by rw [x.cP]; exact hp.noCb
-  have hcr : ∀ k n, c.P.cbRaise k n = none := by rw [x.cP]; exact hp.noCbR
   have hmem : L[i]'x.hi ∈ d.nodes := by
     obtain ⟨mtk, _, hmok⟩ := x.main
     exact hmok.mem_nodes (List.getElem_mem x.hi)
@@ -1027,7 +1068,13 @@ theorem node_afterBody_plain {P : Program} {d : DagRef} (hp : PlainP P d) {s s1 
         have hnext : Track P d val (Att P val (L[i]'x.hi) (k + 1) kw inv) := by
           intro hsol
           exact (hatt hsol).next (by rw [ho]; simp [Retry.decide, hrt, hk])
-        simp only [hcb, cbThen, cbCall, hcr, nodeSleep]
+        simp only [cbCall]
+        cases hr1 : c.P.cbRaise .ncomplete (L[i]'x.hi) with
+        | some e' =>
+          simp only []
+          exact node_cbraiseInTry_plain hp x _ e' ⟨_, _, by rw [← x.cP]; exact hr1⟩
+        | none =>
+        simp only [hcb, cbThen, nodeSleep]
         split
         · rw [block_tasks c s1 _ _ _ tk (by rw [x.tasks1, x.ct]; exact x.htk)]
           exact node_step_suspend hp x _ _ _ rfl (by intro e; simp)
@@ -1047,7 +1094,7 @@ theorem node_afterBody_plain {P : Program} {d : DagRef} (hp : PlainP P d) {s s1 
       · next hex =>
         simp only [raiseOut, unwindFrames]
         exact node_step_finish hp x s1 (.exc e) _ _
-          (Or.inl ⟨rfl, e, rfl, hfl obs e (by rw [ho]; simp [Retry.decide, hrt, hex])⟩) (by rw [x.cP])
+          (Or.inl ⟨rfl, e, rfl, fun hs => Or.inl (hfl obs e (by rw [ho]; simp [Retry.decide, hrt, hex]) hs)⟩) (by rw [x.cP])
 
 /-- one attempt: the body runs inline, or the task suspends until it completes -/
 theorem node_attempt_plain {P : Program} {d : DagRef} (hp : PlainP P d) {s s1 : St} {L : List Node} {i : Nat} {c : Ctx}
@@ -1115,6 +1162,7 @@ theorem agree_of_nodes {P : Program} {d : DagRef} {s : St} {L : List Node}
     | slept _ _ _ _ h2 => rw [h2] at hv; cases hv
     | doneExc _ _ h2 => rw [h2] at hv; cases hv
     | doneOk _ _ h3 => intro hsol; rw [h3 hsol, hv]
+    | doneExcSaved _ _ _ h3 => intro hsol; rw [h3 hsol, hv]
   · rw [(hfresh p hp).2] at hv; cases hv
 
 /-- with all sources available and agreeing with `val`, the engine's kwargs are the declared ones -/
@@ -1181,10 +1229,15 @@ theorem pinv_step_node {P : Program} {d : DagRef} (hp : PlainP P d) {s : St} (h 
     obtain rfl := Option.some.inj hs
     have hpe : s.procExists L[i] = false := by simp [St.procExists, h1]
     have hcb : ∀ k n, c.P.cbYield k n = 0 := by rw [hcP]; exact hp.noCb
-    have hcr : ∀ k n, c.P.cbRaise k n = none := by rw [hcP]; exact hp.noCbR
-    simp only [nodeStart, hpe, Bool.false_eq_true, if_false, hcb, cbThen, cbCall, hcr, nodeBegin]
     have x := mk (s.markProcessed L[i]) _ htk rfl rfl rfl rfl
       (by intro m hm; simp [St.markProcessed, upd, hm]) (by simp [St.markProcessed]) (quiet_markProcessed h.quiet _) h2
+    simp only [nodeStart, hpe, Bool.false_eq_true, if_false, cbCall]
+    cases hr1 : c.P.cbRaise .nstart L[i] with
+    | some e' =>
+      simp only []
+      exact node_cbraise_plain hp x _ e' ⟨_, _, by rw [← hcP]; exact hr1⟩
+    | none =>
+    simp only [hcb, cbThen, nodeBegin]
     obtain ⟨kw, hkw⟩ := nodeKwargs_plain hp (s.markProcessed L[i]) (quiet_markProcessed h.quiet _) (fun p v hv => h.noRecRes p v hv) L[i]
     rw [hcP, hkw]
     refine node_attempt_plain hp x _ 1 kw _ ?_
@@ -1211,6 +1264,7 @@ theorem pinv_step_node {P : Program} {d : DagRef} (hp : PlainP P d) {s : St} (h 
   | sleeping k kw inv dl h1 h2 => simp at hs
   | doneOk h1 => simp at hs
   | doneExc e h1 => simp at hs
+  | doneExcSaved e h1 => simp at hs
   | bodyDone k kw inv h1 h2 h3 =>
     simp only [Bool.false_eq_true, if_false] at hs
     obtain rfl := Option.some.inj hs
@@ -1298,6 +1352,7 @@ theorem pinv_step_gate {P : Program} {d : DagRef} {s : St} (h : PInv P d val s) 
       | slept k kw inv' h1 h2 h3 => exact .slept k kw inv' h1 h2 h3
       | doneOk h0 h1 h3 => exact .doneOk h0 h1 h3
       | doneExc e h0 h1 h3 => exact .doneExc e h0 h1 h3
+      | doneExcSaved e h0 h1 h3 h4 => exact .doneExcSaved e h0 h1 h3 h4
     · intro tk e he
       obtain ⟨fr, st, mc, nm⟩ := tk
       cases st with
@@ -1573,13 +1628,13 @@ theorem noErr_of_isEmpty {s : St} (h : (taskErrors s).isEmpty = true) : NoErr s 
 section started in) -/
 def OutcomeOK (P : Program) (d : DagRef) (val : Node → Option Val) (s : St) : Outcome → Prop
   | .value v => Track P d val (val P.g.output = some v)
-  | .error e => e.isException = true ∧ Track P d val (∃ n ∈ d.nodes, NodeFails P val n e)
-  | .raised e => e.isException = false ∧ Track P d val (∃ n ∈ d.nodes, NodeFails P val n e)
+  | .error e => e.isException = true ∧ Track P d val (FailCause P d val e)
+  | .raised e => CollabFails P e ∨ (e.isException = false ∧ Track P d val (FailCause P d val e))
   | .cancelled => ∃ tk, s.tasks[0]? = some tk ∧ tk.mustCancel = true
 
 /-- a task error of a plain run is the failure of a launched node -/
 theorem taskError_is_node_failure {P : Program} {d : DagRef} {s : St} (h : PInv P d val s) (e : Exc)
-    (he : e ∈ taskErrors s) : Track P d val (∃ n ∈ d.nodes, NodeFails P val n e) := by
+    (he : e ∈ taskErrors s) : Track P d val (FailCause P d val e) := by
   unfold taskErrors at he
   rw [List.mem_filterMap] at he
   obtain ⟨tk, htk, hst⟩ := he
@@ -1611,7 +1666,14 @@ theorem taskError_is_node_failure {P : Program} {d : DagRef} {s : St} (h : PInv 
           simp at hst'
           subst hst'
           intro hsol
-          exact ⟨L[i], hmok.mem_nodes (List.getElem_mem hi), h3 hsol⟩
+          rcases h3 hsol with h4 | h4
+          · exact Or.inl ⟨L[i], hmok.mem_nodes (List.getElem_mem hi), h4⟩
+          · exact Or.inr h4
+        | doneExcSaved e' _ _ _ h4 =>
+          simp at hst'
+          subst hst'
+          intro _
+          exact Or.inr h4
         | fresh => simp at hst'
         | inBody => simp at hst'
         | bodyDone => simp at hst'
@@ -1625,15 +1687,18 @@ theorem pinv_step_caller {P : Program} {d : DagRef} (hp : PlainP P d) {s : St} (
     (∃ o, out.1.outcome = some o ∧ OutcomeOK P d val s o) ∨ PInv P d val out.1 := by
   obtain ⟨ctk, hc0, hcok⟩ := h.caller
   have hcb : ∀ k n, c.P.cbYield k n = 0 := by rw [hcP]; exact hp.noCb
-  have hcr : ∀ k n, c.P.cbRaise k n = none := by rw [hcP]; exact hp.noCbR
   have hret : ∀ s0 obs o, (mgrReturn c s0 obs o).1.outcome = some o := by
     intro s0 obs o; simp [mgrReturn, St.setOutcome]
-  have hcomp : ∀ s0 obs o, (mgrComplete c s0 obs o).1.outcome = some o := by
+  have hcomp : ∀ s0 obs o, ∃ o', (mgrComplete c s0 obs o).1.outcome = some o' ∧
+      (o' = o ∨ ∃ e, o' = .raised e ∧ CollabFails P e) := by
     intro s0 obs o
     unfold mgrComplete
     split
-    · exact hret _ _ _
-    · simp only [hcb, cbThen, cbCall, hcr]; exact hret _ _ _
+    · exact ⟨_, hret _ _ _, Or.inl rfl⟩
+    · simp only [cbCall]
+      cases hr1 : c.P.cbRaise .pcomplete 0 with
+      | some e => exact ⟨_, hret _ _ _, Or.inr ⟨e, rfl, _, _, by rw [← hcP]; exact hr1⟩⟩
+      | none => simp only [hcb, cbThen]; exact ⟨_, hret _ _ _, Or.inl rfl⟩
   unfold stepTask at hs
   rw [hct, hc0] at hs
   cases hcok with
@@ -1648,7 +1713,6 @@ theorem pinv_step_caller {P : Program} {d : DagRef} (hp : PlainP P d) {s : St} (
     | false =>
       simp only [Bool.false_eq_true, if_false] at hs
       obtain rfl := Option.some.inj hs
-      right
       -- the task list is exactly [caller]
       have hl1 : s.tasks = [{ frames := [.mgrStart], st := .runnable .go, mustCancel := false, name := .caller }] := by
         cases hts : s.tasks with
@@ -1666,7 +1730,14 @@ theorem pinv_step_caller {P : Program} {d : DagRef} (hp : PlainP P d) {s : St} (
         simp [taskErrors, spawn, hl1]
       have hex0 : (spawn s [.dagInit d] .run).1.exists c.P.g.output = false := by
         simp [St.exists, spawn, (hfr _).2]
-      simp only [mgrStart, hcb, hp.noCb, hp.noCbR, cbThen, cbCall, hcr, mgrBegin, hcP, hp.pools, Bool.not_true, Bool.false_eq_true, if_false, hmainref]
+      simp only [mgrStart, cbCall]
+      cases hr1 : c.P.cbRaise .pstart 0 with
+      | some e =>
+        left
+        exact ⟨.raised e, hret _ _ _, Or.inl ⟨_, _, by rw [← hcP]; exact hr1⟩⟩
+      | none =>
+      right
+      simp only [hcb, hp.noCb, cbThen, mgrBegin, hcP, hp.pools, Bool.not_true, Bool.false_eq_true, if_false, hmainref]
       rw [hcP] at hex0
       simp only [mgrCheck, hne0, hcP, hex0, Bool.not_true, Bool.or_false, Bool.false_eq_true, if_false, block, hct]
       simp only [spawn, hl1, List.cons_append, List.nil_append, List.getElem?_cons_zero, St.setTask, List.set_cons_zero]
@@ -1692,38 +1763,49 @@ theorem pinv_step_caller {P : Program} {d : DagRef} (hp : PlainP P d) {s : St} (
       · next hfin =>
         left
         simp only [mgrFinish]
-        refine ⟨_, hcomp _ _ _, ?_⟩
-        cases hidx : (taskErrors s)[c.pick % max (taskErrors s).length 1]? with
-        | some e =>
-          have hmem : e ∈ taskErrors s := List.mem_of_getElem? hidx
-          have hnf := taskError_is_node_failure h e hmem
-          simp only []
-          split
-          · next hex => exact ⟨hex, hnf⟩
-          · next hex => exact ⟨by simpa using hex, hnf⟩
-        | none =>
-          simp only []
-          have hnil : taskErrors s = [] := by
-            cases hl : taskErrors s with
-            | nil => rfl
-            | cons a l =>
-              rw [hl] at hidx
-              have : c.pick % max (a :: l).length 1 < (a :: l).length := by
-                have : max (a :: l).length 1 = (a :: l).length := by simp
-                rw [this]; exact Nat.mod_lt _ (by simp)
-              rw [List.getElem?_eq_none_iff] at hidx
-              omega
-          simp only [hnil, List.isEmpty_nil, Bool.not_true, Bool.false_or, hcP] at hfin
-          simp only [St.exists, Bool.and_eq_true] at hfin
-          rw [hcP]
-          cases hr : s.res P.g.output with
-          | none => rw [hr] at hfin; simp at hfin
-          | some v =>
-            have : s.getHid P.g.output = v := by simp [St.getHid, hr]
-            rw [this]
-            rcases h.rest with ⟨_, h2⟩ | ⟨L, hl, _, hnodes, hfresh⟩
-            · rw [(h2 _).2] at hr; cases hr
-            · exact agree_of_nodes hnodes hfresh _ v hr
+        have main : OutcomeOK P d val s
+            (match (taskErrors s)[c.pick % max (taskErrors s).length 1]? with
+              | some e => if e.isException = true then Outcome.error e else Outcome.raised e
+              | none => Outcome.value (s.getHid c.P.g.output)) := by
+          cases hidx : (taskErrors s)[c.pick % max (taskErrors s).length 1]? with
+          | some e =>
+            have hmem : e ∈ taskErrors s := List.mem_of_getElem? hidx
+            have hnf := taskError_is_node_failure h e hmem
+            simp only []
+            split
+            · next hex => exact ⟨hex, hnf⟩
+            · next hex => exact Or.inr ⟨by simpa using hex, hnf⟩
+          | none =>
+            simp only []
+            have hnil : taskErrors s = [] := by
+              cases hl : taskErrors s with
+              | nil => rfl
+              | cons a l =>
+                rw [hl] at hidx
+                have : c.pick % max (a :: l).length 1 < (a :: l).length := by
+                  have : max (a :: l).length 1 = (a :: l).length := by simp
+                  rw [this]; exact Nat.mod_lt _ (by simp)
+                rw [List.getElem?_eq_none_iff] at hidx
+                omega
+            simp only [hnil, List.isEmpty_nil, Bool.not_true, Bool.false_or, hcP] at hfin
+            simp only [St.exists, Bool.and_eq_true] at hfin
+            rw [hcP]
+            cases hr : s.res P.g.output with
+            | none => rw [hr] at hfin; simp at hfin
+            | some v =>
+              have : s.getHid P.g.output = v := by simp [St.getHid, hr]
+              rw [this]
+              rcases h.rest with ⟨_, h2⟩ | ⟨L, hl, _, hnodes, hfresh⟩
+              · rw [(h2 _).2] at hr; cases hr
+              · exact agree_of_nodes hnodes hfresh _ v hr
+        obtain ⟨o', ho', hoo⟩ := hcomp (cancelTasks s (liveTasks s c.t)) []
+          (match (taskErrors s)[c.pick % max (taskErrors s).length 1]? with
+            | some e => if e.isException = true then Outcome.error e else Outcome.raised e
+            | none => Outcome.value (s.getHid c.P.g.output))
+        refine ⟨o', ho', ?_⟩
+        rcases hoo with hoo | ⟨e, hoo, hce⟩
+        · rw [hoo]; exact main
+        · rw [hoo]; exact Or.inl hce
       · next hcond =>
         right
         simp only [Bool.or_eq_true, Bool.not_eq_true', not_or, Bool.not_eq_true] at hcond
@@ -1781,6 +1863,7 @@ theorem pinv_step_timer {P : Program} {d : DagRef} (hp : PlainP P d) {s : St} (h
           | slept k kw inv h1 h2 => simp at hs
           | doneOk h1 => simp at hs
           | doneExc e h1 => simp at hs
+          | doneExcSaved e h1 => simp at hs
 
 /-- the caller's task is cancelled (at any point) -/
 theorem pinv_step_cancel {P : Program} {d : DagRef} {s : St} (h : PInv P d val s) (out : Out)
@@ -1912,11 +1995,11 @@ theorem plainP_of_check {P : Program} {d : DagRef} (hc : plainCheck P d = true)
     (hsw : ∀ n, P.g.isSwitch n = false) (hhd : ∀ n, P.g.isOneofHead n = false)
     (hr : ∀ n kw i k v, P.body n kw i k = .ret v → v.isRecur = false ∧ v.isExc = false)
     (hrd : ∀ n kw, (P.dflt n kw).isRecur = false ∧ (P.dflt n kw).isExc = false) (hcb : ∀ k n, P.cbYield k n = 0)
-    (hcr : ∀ k n, P.cbRaise k n = none) : PlainP P d := by
+    : PlainP P d := by
   unfold plainCheck at hc
   simp only [Bool.and_eq_true, decide_eq_true_eq, Bool.not_eq_true', List.all_eq_true, List.isEmpty_eq_false_iff] at hc
   obtain ⟨⟨⟨⟨⟨⟨⟨⟨⟨h1, h2⟩, h3⟩, h4⟩, h5⟩, h6⟩, h7⟩, h8⟩, h9⟩, h10⟩ := hc
-  exact { noSwitch := hsw, noHead := hhd, noRecur := hr, noRecurD := hrd, noCb := hcb, noCbR := hcr, pools := h10,
+  exact { noSwitch := hsw, noHead := hhd, noRecur := hr, noRecurD := hrd, noCb := hcb, pools := h10,
           main := fun s hs => by rw [reducedRef_congr_opened P s hs]; exact h1,
           dest := h2, notRec := h3, notOneof := h4, predsIn := h5, outIn := h6, nodup := h7, gne := h8,
           noCase := fun e he => by have := h9 e he; simpa using this }
